@@ -431,8 +431,120 @@ def events(kind):
     return evs
 
 
+# ------------------------------------------------------------------- cells
+def wildcard_cells(ctx):
+    """Attributes governed by one wildcard declaration: each name is its own
+    trait for the static handlers (a specially named method for one name, the
+    anytrait method for all)."""
+    import itertools
+    names = ("w_a", "w_b", "w_c")
+    for hist in itertools.chain.from_iterable(
+            itertools.product([(n, v) for n in names for v in (1, 2)],
+                              repeat=k) for k in (1, 2, 3)):
+        ctx.case({"cell": "wildcard", "history": [list(e) for e in hist]})
+        ctx.ev()
+        log = []
+
+        class W(HasTraits):
+            w_ = Int
+
+            def _w_a_changed(self, name, old, new):
+                log.append(("w_a_changed", name, old, new))
+
+            def _anytrait_changed(self, name, old, new):
+                if name.startswith("w_"):
+                    log.append(("anytrait", name, old, new))
+        objs = [W(), W()]
+        vals = [{}, {}]
+        for i, (n, v) in enumerate(hist):
+            # alternate between two instances of the class
+            k = i % 2
+            o, cur = objs[k], vals[k]
+            old = cur.get(n, 0)
+            log.clear()
+            ctx.tr()
+            setattr(o, n, v)
+            cur[n] = v
+            exp = []
+            if old != v:
+                if n == "w_a":
+                    exp.append(("w_a_changed", n, old, v))
+                exp.append(("anytrait", n, old, v))
+            if sorted(log) != sorted(exp):
+                ctx.violation(
+                    "C02:wildcard-static:%s" % n,
+                    "names governed by the wildcard w_ = Int: %s = %r (was "
+                    "%r) called %r, expected %r" % (n, v, old, log, exp),
+                    cell="wildcard", history=[list(e) for e in hist])
+                break
+            ctx.outcome("notified" if exp else "suppressed-identical")
+
+
+def instance_trait_cells(ctx):
+    """Two instances of one class carry an instance trait of the same name
+    with different comparison modes: each assignment goes by the mode of the
+    trait of the object assigned to."""
+    import itertools
+    modes = ("none", "identity", "equality")
+    for m1, m2 in itertools.product(modes, repeat=2):
+        if m1 == m2:
+            continue
+        for first in (0, 1):
+            for toks in itertools.product(("L1", "L2"), repeat=2):
+                ctx.case({"cell": "instance-trait", "modes": [m1, m2],
+                          "first": first, "values": list(toks)})
+                ctx.ev()
+
+                class H(HasTraits):
+                    pass
+                objs = [H(), H()]
+                logs = [{"otc": [], "obs": []}, {"otc": [], "obs": []}]
+                for o, m, lg in zip(objs, (m1, m2), logs):
+                    o.add_trait("x", Any(comparison_mode=MODES[m]))
+                    def mk(lg):
+                        def otc(obj, n, old, new):
+                            lg["otc"].append(new)
+
+                        def obs(ev):
+                            lg["obs"].append(ev.new)
+                        return otc, obs
+                    otc, obs = mk(lg)
+                    o.on_trait_change(otc, "x")
+                    o.observe(obs, "x")
+                order = (0, 1) if first == 0 else (1, 0)
+                good = True
+                for tok in toks:
+                    for k in order:
+                        o, m, lg = objs[k], (m1, m2)[k], logs[k]
+                        old = o.__dict__.get("x", None)
+                        new = POOL[tok]
+                        for l in lg.values():
+                            l.clear()
+                        ctx.tr()
+                        o.x = new
+                        want = counts_as_change(m, old, new)
+                        exp = 1 if want else 0
+                        got = (len(lg["otc"]), len(lg["obs"]))
+                        if got != (exp, exp):
+                            ctx.violation(
+                                "C02:instance-trait-mode:%s" % m,
+                                "two instances with an instance trait x of "
+                                "comparison modes %s / %s: assigning %s to "
+                                "the %s one (old %r) called on_trait_change "
+                                "%d and observe %d time(s), expected %d" % (
+                                    m1, m2, tok, m, old, got[0], got[1], exp),
+                                cell="instance-trait", modes=[m1, m2],
+                                first=first, values=list(toks))
+                            good = False
+                            break
+                        ctx.outcome("notified" if exp else
+                                    "suppressed-equal")
+                    if not good:
+                        break
+
+
 def shards(tier):
-    out = []
+    out = [{"cell": "wildcard"}, {"cell": "instance-trait"}]
     for kind, mode in configs():
         for grp in (0, 1, 2):
             out.append({"kind": kind, "mode": mode, "group": grp})
@@ -459,6 +571,11 @@ def canon(rig):
 
 
 def run_shard(ctx, shard, tier):
+    if shard.get("cell"):
+        (wildcard_cells if shard["cell"] == "wildcard"
+         else instance_trait_cells)(ctx)
+        ctx.depth_completed = 3
+        return
     raisers = ([None] + HANDLERS)[shard["group"]::3]
     if shard.get("threaded"):
         raisers = [None, "obs_ui", "otc_ui"]
@@ -526,6 +643,12 @@ def replay(rec):
     from mc.ctx import Ctx
     ctx = Ctx("C02", None, "quick", 0)
     c = rec["case"]
+    if c.get("cell"):
+        (wildcard_cells if c["cell"] == "wildcard"
+         else instance_trait_cells)(ctx)
+        for v in ctx.violations.values():
+            print("  violation:", v["sig"], v["msg"])
+        return not ctx.violations
     rig = Rig(c["kind"], c["mode"], c["raiser"], c.get("threaded", False))
     for e in c["history"]:
         e = tuple(e)
